@@ -7,7 +7,7 @@
    share). *)
 From Coq Require Import String ZArith List Bool.
 From HD Require Import Base.Val C16_Model C16_Proofs C16_Proofs_Acc C16_Proofs_Mixed C16_Proofs_Codes C16_Proofs_Tree
-  C16_Proofs_E2E C16_Proofs_General C16_Proofs_Construct C16_Proofs_Enc C16_Proofs_Geom.
+  C16_Proofs_E2E C16_Proofs_General C16_Proofs_Construct C16_Proofs_Enc C16_Proofs_Geom C16_Proofs_Meas.
 Import ListNotations.
 Open Scope Z_scope.
 
@@ -594,3 +594,82 @@ Example C16_geom_nonvacuous :
   run_accessors_geom [(13, 12)] [] ex_ggs None None <> run_accessors_geom [] [] ex_ggs None None.
 Proof. exact geom_nonvacuous. Qed.
 Print Assumptions C16_geom_nonvacuous.
+
+(* ---- (I) the MEASUREMENTS a returned group reports, in full (TID 300 behind get_measurements) -------------------
+   get_measurements(name) = [Measurement.from_sequence([item]) for the NUM items of the group (named name)], and
+   from_sequence REBUILDS each NUM item from name, value, unit and qualifier and copies its child content.  The unit
+   and the qualifier (attributes of the NUM item, not content items) are carried in the item model as two pseudo
+   children with reserved names (see C16_Model.v); `meas_val` is the observation of one measurement: name, value,
+   unit, qualifier, derivation, method, finding sites, referenced images, child content item by item. *)
+
+(* the rebuild loses nothing, for EVERY NUM item that has a unit: every accessor of the rebuilt measurement shows what
+   the stored item carries *)
+Theorem C16_measurement_from_sequence_faithful : forall i u, num_unit i = Some u ->
+  exists m, measurement_from_item i = Ok m /\ meas_val m = meas_val i.
+Proof. exact from_sequence_faithful. Qed.
+Print Assumptions C16_measurement_from_sequence_faithful.
+
+Theorem C16_measurement_from_sequence_raises_iff : forall i,
+  measurement_from_item i = Err "AttributeError"%string <-> num_unit i = None.
+Proof. exact from_sequence_raises_iff. Qed.
+Print Assumptions C16_measurement_from_sequence_raises_iff.
+
+(* each argument of the rebuild is needed: rebuilt from name, value and unit only, a measurement that was stored with
+   a qualifier is reported without one (and with nothing else changed) *)
+Theorem C16_measurement_qualifier_needed :
+  num_qualifier failed_measurement = Some 210 /\
+  (exists m, measurement_from_item failed_measurement = Ok m /\ num_qualifier m = Some 210 /\
+             meas_val m = meas_val failed_measurement) /\
+  (exists m, from_item_no_qualifier failed_measurement = Ok m /\ num_qualifier m = None /\
+             meas_val m <> meas_val failed_measurement).
+Proof. exact qualifier_argument_needed. Qed.
+Print Assumptions C16_measurement_qualifier_needed.
+
+(* the full observation refines the (name, value) observation of (A) / (G), on ANY group *)
+Theorem C16_measurements_full_refine : forall g name ms, acc_measurements_full g name = Ok ms ->
+  map (fun m => (nm m, num_value m)) ms = acc_measurements g name.
+Proof. exact measurements_full_refine. Qed.
+Print Assumptions C16_measurements_full_refine.
+
+(* the three queries cannot see the NUM items of the groups: ANY tree, ANY filter, ANY rewriting H of the NUM items
+   (names, numbers, unit, qualifier, child content) that leaves every other item alone *)
+Theorem C16_queries_blind_to_measurement_content : forall (H : item -> item),
+  (forall i, vt_eqb (vt i) NUM = false -> H i = i) ->
+  (forall i, vt_eqb (vt i) NUM = true -> vt_eqb (vt (H i)) NUM = true) ->
+  forall k root f, query k (regraft H root) f = on_list (map_kids H) (query k root f).
+Proof. exact query_regraft. Qed.
+Print Assumptions C16_queries_blind_to_measurement_content.
+
+(* a measurement built by sr.Measurement from record m shows its record *)
+Theorem C16_measurement_reports_record : forall m, meas_val (build_meas m) = spec_meas m.
+Proof. exact meas_val_build. Qed.
+Print Assumptions C16_measurement_reports_record.
+
+(* the property sentence for the measurements: a report of good group records, each with the full records of its
+   measurements (good_m: g_meas is their (name, value) part), answers every accepted query with exactly the matching
+   groups in document order, and every returned group reports its tracking identifier and every measurement (all /
+   by name) as its record says - unit, qualifier, derivation, method, finding sites, referenced images, child content *)
+Theorem C16_measurements_end_to_end : forall k pre gms f mname,
+  no_im pre = true -> Forall good_m gms -> qcheck k f = Ok tt ->
+  let answer := filter (sel_m k f) gms in
+  query k (report_m pre gms) f = Ok (map build_m answer) /\
+  map (group_meas_val mname) (map build_m answer) = map (spec_group_meas mname) answer.
+Proof. exact meas_end_to_end. Qed.
+Print Assumptions C16_measurements_end_to_end.
+
+(* the observation of the correspondence run (kind acc_meas) is the record-level specification, refusals included *)
+Theorem C16_run_meas_exact : forall pre gms f mname, no_im pre = true -> Forall good_m gms ->
+  run_meas pre gms f mname =
+  VL (map (fun k => match qcheck k f with
+                    | Err e => VErr e
+                    | Ok _ => VL (map (spec_group_meas mname) (filter (sel_m k f) gms))
+                    end) [Planar; Volumetric; ImageK]).
+Proof. exact run_meas_exact. Qed.
+Print Assumptions C16_run_meas_exact.
+
+Example C16_measurements_nonvacuous :
+  Forall good_m ex_gms /\ Forall good_m (drop_qualifiers ex_gms) /\
+  run_meas [] ex_gms (Filt None (Some 110) None None GNone None None) (Some 140) <>
+  run_meas [] (drop_qualifiers ex_gms) (Filt None (Some 110) None None GNone None None) (Some 140).
+Proof. exact meas_nonvacuous. Qed.
+Print Assumptions C16_measurements_nonvacuous.
